@@ -201,6 +201,12 @@ def run(sh):
                 cases.append((l1, l2))
             elif k == 1:  # triples
                 a, b, c = rng.choice(qs), rng.choice(qs), rng.choice(qs)
+                if rng.chance(0.4):
+                    # a middle level that adds nothing (same query, `all`, or a subset of the outer conditions) under
+                    # an innermost query that cannot be merged (negation): the bubbling logic decides the placement
+                    b = rng.choice([a, (None, "all", ()), (a[0], a[1], a[2][:1]) if a[1] else a])
+                    neg = [q for q in qs if q[0] == "not"]
+                    c = rng.choice(neg) if rng.chance(0.7) else c
                 if excluded(a, b) or excluded(b, c) or excluded(a, c):
                     continue
                 cases.append(([a], [b], [c]))
